@@ -1943,8 +1943,10 @@ impl<E: Effect> Executor<E> {
         let first = &values[0];
         let all_equal = values.iter().all(|value| self.values_equal(first, value));
 
+        // The result is a verdict (the compiler always follows `Equal` with `Not` + `JumpIf`), so
+        // it must be truthy whenever the operands are equal — including when they are all nil.
         let result = if all_equal {
-            first.clone()
+            Value::ok()
         } else {
             Value::nil()
         };
